@@ -411,7 +411,7 @@ fn eval(line: &str) -> String {
             let wire = BODY.with(|b| receive(&mut b.borrow_mut()));
             format!("ok {} via={}", body_state(), if wire { "wire" } else { "parts" })
         }
-        "BPUSH" | "BPUSHV" | "BPUSHN" | "PGET" | "PGETN" => {
+        "BPUSH" | "BPUSHV" | "BPUSHVI" | "BPUSHN" | "PGET" | "PGETN" => {
             let ty = a.next();
             rbverif::catalogue::dispatch(ty, op, &mut a)
         }
